@@ -20,6 +20,54 @@ ASSUMPTIONS = [
 ]
 
 
+# ---------------------------------------------------------------- revision of the election code (Raft.v: raftrev)
+# The model carries two flags, one per election repair of C27 (fixes/C27-vote-adopts-term.diff,
+# fixes/C27-count-only-current-term-votes.diff).  Each check reads the raft.rs it runs against and selects the flags,
+# so that the model it compares with, and the theorems that apply, are those of the code actually under test.
+REPAIRED_CLASSES = {"1": ("double-vote", "ack-below-voted-term"), "2": ("stale-vote-counted",)}
+
+
+def raft_src():
+    return os.environ.get("HX_RAFT_SRC") or os.path.join(vlib.REPO, "agdb_server", "src", "raft.rs")
+
+
+def _fn_body(text, name):
+    """text of `fn <name>` up to the next `fn ` at the same indentation (good enough for raft.rs, rustfmt layout)"""
+    m = re.search(r"^(\s*)(?:pub(?:\([a-z]+\))?\s+)?(?:async\s+)?fn\s+%s\b" % re.escape(name), text, re.M)
+    if not m:
+        return ""
+    rest = text[m.end():]
+    n = re.search(r"^%s(?:pub(?:\([a-z]+\))?\s+)?(?:async\s+)?fn\s" % re.escape(m.group(1)), rest, re.M)
+    return rest[:n.start()] if n else rest
+
+
+def detect_rev(path=None):
+    """'ab': a = vote_request assigns self.term from the request before/when it records the vote,
+             b = the (Candidate, Vote, OK) arm of response() (or vote_received itself) compares request.term with self.term"""
+    try:
+        text = open(path or raft_src(), errors="replace").read()
+    except OSError:
+        return "00"
+    text = re.sub(r"//[^\n]*", "", text)
+    vr = _fn_body(text, "vote_request")
+    a = bool(re.search(r"self\s*\.\s*term\s*=\s*request\s*\.\s*term\s*;", vr))
+    cmp_ = r"(?:request\s*\.\s*term\s*[=!]=\s*self\s*\.\s*term|self\s*\.\s*term\s*[=!]=\s*request\s*\.\s*term)"
+    resp = _fn_body(text, "response")
+    arm = re.search(r"\(\s*Candidate\s*,\s*Vote\s*,\s*OK\s*\)([^\n]*?)=>", resp)
+    b = bool(arm and re.search(cmp_, arm.group(1))) or bool(re.search(cmp_, _fn_body(text, "vote_received")))
+    return ("1" if a else "0") + ("1" if b else "0")
+
+
+def repaired_classes(rev):
+    """known-finding classes that must NOT be accepted any more on a tree with the given revision bits"""
+    out = set()
+    if rev[0] == "1":
+        out.update(REPAIRED_CLASSES["1"])
+    if rev[1] == "1":
+        out.update(REPAIRED_CLASSES["2"])
+    return out
+
+
 def build():
     exe, dlog = vlib.build_driver()
     if exe is None:
@@ -49,11 +97,13 @@ def corpus_file(ctx, prop):
     return out, names
 
 
-def phase(ctx, exe, hx, name, args, prop, timeout=3000):
+def phase(ctx, exe, hx, name, args, prop, timeout=3000, rev=None):
     """run the harness sub-command, then the model on the same cases; returns dict(cases, dis, failures, stats)"""
     w = os.path.join(ctx.workdir, name)
     os.makedirs(w, exist_ok=True)
-    rc, out = vlib.sh([hx] + args + ["--out", w], timeout=timeout)
+    rev = rev or detect_rev()
+    gone = repaired_classes(rev)
+    rc, out = vlib.sh([hx] + args + ["--rev", rev, "--out", w], timeout=timeout)
     if rc != 0:
         raise RuntimeError("hx_raft %s failed: %s" % (args, out[-2000:]))
     rc, err = run_driver(exe, os.path.join(w, "cases.txt"), os.path.join(w, "model.txt"))
@@ -67,7 +117,6 @@ def phase(ctx, exe, hx, name, args, prop, timeout=3000):
         if c.startswith("raft run"):
             ms, xs = m.split(" ;; "), x.split(" ;; ")
             k = next((j for j, (a, b) in enumerate(zip(ms, xs)) if a != b), min(len(ms), len(xs)))
-            evs = c.split(" ", 3)[3] if c.count(" ") >= 3 else ""
             dis.append(dict(what="%s case %d: states differ after event %d" % (name, i // 2, k), case=c[:3000],
                             model=(ms[k] if k < len(ms) else "<end>")[:1500], impl=(xs[k] if k < len(xs) else "<end>")[:1500]))
         else:
@@ -86,8 +135,20 @@ def phase(ctx, exe, hx, name, args, prop, timeout=3000):
         if flag and 2 * cno + 1 < len(model):
             if re.search(r"\b%s=1\b" % flag, model[2 * cno + 1]):
                 cls = "impl-only-" + kind
+        # a class whose repair is present in the tree under test is no longer an accepted finding there
+        if cls in gone:
+            cls = "repaired-class-reappeared-" + cls
         failures.append(dict(cls=cls, what=("%s [%s] " % (prop, name)) + l[:6000]))
     stats = os.path.join(w, "stats.json")
+    # the harness determines the same revision bits by behaviour (hx_raft: probe_rev); they must agree with the source reading
+    try:
+        import json
+        st = json.load(open(stats))
+        if st.get("probe_rev") != rev:
+            dis.append(dict(what="%s: revision of the election code read from the source (%s) differs from the behaviour of the built code (%s)"
+                            % (name, rev, st.get("probe_rev")), case=raft_src()))
+    except (OSError, ValueError):
+        dis.append(dict(what="%s: no stats.json" % name))
     return dict(n=len(cases) // 2, dis=dis, failures=failures, stats=stats)
 
 
@@ -101,7 +162,7 @@ def replay_file(ctx):
     texts = [v.get("what", "")] + [b.get("case", "") for b in v.get("broken", []) if isinstance(b, dict)]
     lines = []
     for t in texts:
-        m = re.search(r"events=(\d+ .*)$", t) or re.search(r"raft (?:run|flags) (\d+ .*)$", t)
+        m = re.search(r"events=(\d+ .*)$", t) or re.search(r"raft (?:run|flags) (?:r[01][01] )?(\d+ .*)$", t)
         if m:
             lines.append(m.group(1).strip())
     if not lines:
@@ -124,18 +185,24 @@ def run_property(ctx, prop, rule, quick, thorough):
     else:
         phases += quick if ctx.tier == "quick" else thorough
     dis, failures, stats, n = [], [], [], 0
+    rev = detect_rev()
+    gone = repaired_classes(rev)
     for name, args in phases:
-        r = phase(ctx, exe, hx, name, args, prop)
+        r = phase(ctx, exe, hx, name, args, prop, rev=rev)
         dis += r["dis"]; failures += r["failures"]; stats.append(r["stats"]); n += r["n"]
     dist, ev, nt, samples = merge_stats(stats)
-    known = {k["cls"] for k in vlib.known_findings() if k["property"] == prop and k["kind"] == "finding"}
+    dist["raft-revision:vote_term=%s,vote_match=%s" % (rev[0], rev[1])] = 1
+    known = {k["cls"] for k in vlib.known_findings() if k["property"] == prop and k["kind"] == "finding"} - gone
     seen = {f["cls"] for f in failures}
     return dict(
         evaluations=ev, distinct_nontrivial=nt, samples=samples[:6], dist=dist, rule=rule,
         failures=failures, disagreements=dis[:20],
         known_probe={c: (c in seen) for c in known},
         assumptions=ASSUMPTIONS, trusted_extra=TRUSTED_EXTRA,
-        notes=["event lists: %d; failing histories are classified by the earliest KnownClass marker observed in the implementation's own trace "
+        notes=["revision of the election code read from %s: vote_request adopts the term = %s, response() checks the term = %s "
+               "(model revision %s; finding classes not accepted on this tree: %s)"
+               % (raft_src(), rev[0], rev[1], {"00": "rr_pinned", "11": "rr_fixed"}.get(rev, "mkRev " + rev), ", ".join(sorted(gone)) or "none"),
+               "event lists: %d; failing histories are classified by the earliest KnownClass marker observed in the implementation's own trace "
                "(double-vote, stale-vote-counted, ack-from-diverged-log, old-term-commit, ack-below-voted-term); a failure the model does not predict is never classified as known" % n],
     )
 
